@@ -845,6 +845,19 @@ def inline_fresh_cse(fn, ref_names) -> List[str]:
         if not _pure_expr(st.value) or len(ast.dump(st.value)) > 1500:
             continue
         reads = {x.id for x in ast.walk(st.value) if isinstance(x, ast.Name)}
+        if any(isinstance(x, ast.Attribute) and x.attr in EXTERNALLY_REBOUND for x in ast.walk(st.value)):
+            continue
+        # a method called on one of the objects the expression reads may change what the expression means (x.ravel() re-lays x): then the value is not re-computable
+        called_on = set()
+        for x in ast.walk(fn):
+            if isinstance(x, ast.Call) and isinstance(x.func, ast.Attribute):
+                r = x.func.value
+                while isinstance(r, (ast.Attribute, ast.Subscript)):
+                    r = r.value
+                if isinstance(r, ast.Name):
+                    called_on.add(r.id)
+        if (reads - {"np", "numpy"}) & called_on and any(isinstance(x, ast.Attribute) for x in ast.walk(st.value)):
+            continue
         if name in reads or any(stores.get(r, 0) > (1 if r in params_of(fn) else 1) or r in written for r in reads if r not in ("np", "numpy")):
             continue
         if any(stores.get(r, 0) >= 1 and r not in params_of(fn) and False for r in reads):
